@@ -90,6 +90,24 @@ fn dagger(t: &mut Tape, ctx: &mut Ctx, al: gen::Alpha) -> CheckResult {
         let want = lf2.strictify().unwrap().compose(&lg2.strictify().unwrap()).expect("composable").dagger();
         require_iso(ctx, "lax-dagger-contravariant", &l, &want, "lax (f;g)† vs the model")?;
     }
+    // (drawn last, so that the choices of the earlier sub-checks stay where they were)
+    ctx.sub("lax-dagger-tensor");
+    {
+        let a = to_lax(&lf);
+        // both operands with pending unifications, the tensor also taken in place (tensor_assign)
+        let qg = gen::pending_pairs(t, g, 3, true);
+        let n = f.nodes.len();
+        let mut q2 = lf.q.clone();
+        q2.extend(qg.iter().map(|&(v, w)| (v + n, w + n)));
+        let want2 = Lax { d: f.juxtapose(g).dagger(), q: q2 };
+        let b2 = to_lax(&Lax { d: g.clone(), q: qg });
+        let mut acc = a.clone();
+        acc.tensor_assign(b2.clone());
+        for (name, l) in [("(f tensor_assign g)†", acc.dagger()), ("(f|g)†", a.tensor(&b2).dagger()), ("f† tensor_assign g†", { let mut x = a.dagger(); x.tensor_assign(b2.dagger()); x })] {
+            let l = wf(ctx, "lax-dagger", from_lax(&l), name)?;
+            ensure!(ctx, l == want2, "lax-dagger-tensor", "lax {name} with pending unifications on both sides is not the juxtaposition with swapped interfaces\n  got : {}\n  want: {}", l.pretty(), want2.pretty());
+        }
+    }
     if f.s != f.t && !f.edges.is_empty() {
         ctx.nontrivial(&(f, g));
         if ctx.want_sample {
